@@ -283,6 +283,9 @@ func StartProxy(o ProxyOpts) *Proxy {
 		MaxIdleConns:          100,
 		IdleConnTimeout:       90 * time.Second,
 		ExpectContinueTimeout: time.Second,
+		// as fingerproxy.defaultReverseProxyHTTPHandler configures its transport (checked at wiring
+		// level by the overlay test TestVerifWiringC08)
+		DisableCompression: true,
 	}
 	fu := o.ForwardURL
 	if fu == "" {
